@@ -202,6 +202,19 @@ SIXTH ROUND
   names        a local / parameter named like a template identifier (key, table, lookup, state_repr, N, ...) or a Coq
                keyword is the binder py_<name>.
 
+SEVENTH ROUND
+
+  augmented    x |= e, x &= e, x ^= e  ->  Z.lor / Z.land / Z.lxor (two's complement, as Python ints);
+  assignments  x <<= e, x >>= e (and `a >> b`) with a count that is syntactically >= 0  ->  Z.shiftl / Z.shiftr.
+  pairs        a 2-tuple whose components are not both ints is a pair; `a, b = <pair-valued expression>` (e.g. a helper
+               that returns two lists) is  let '(a, b) := .. ;  `return (A, B)`.
+  C10 locator  the block index construction may live in a private helper: `O, E = helper(len(initial_conditions),
+               block_size)` (the helper is inlined); the time loop may alternate between decorated lists
+               `P = [(v, <anything>) for v in L]` whose first component is the block itself: the construction under the
+               tie is L (what the second component is -- e.g. a gather array -- is not under the tie).
+  C14          the list of scheduled grain additions may be handed to a module-level helper as an argument; the scan
+               `for g in <that parameter>: if <test>: return <e>` is translated as for the attribute.
+
 The parameter types of each target (which name is the 3x3 block, which the cell index, ...) are declared in TARGETS
 below: they are assumptions about how the library calls the function, not read from the source.
 
@@ -209,6 +222,20 @@ below: they are assumptions about how the library calls the function, not read f
 path, hash or line number: an unchanged translation is byte-identical whatever tree it came from), the constant
 GenFuns_Prelude.v and the constant re-export GenFuns.v, plus GenFuns_<Cxx>.status.json (sha256 of the sources).
 `pre_hook` / `extra_hook` are the run-time glue used by harness/props/c{06,11,13,14,15}.py.
+
+EIGHTH ROUND (R9 refactorings, C16 / C18 / C19)
+  `_`          an unused loop variable / tuple component named `_` is a wildcard pattern; it is never bound (a read
+               of `_` is an unknown name)
+  x = A if c else B   where a branch can raise: translated as the statement `if c: x = A else: x = B`
+  operator.index(e)   on an int: e
+  helpers      the inlined module-level helpers / methods are cached per (module, property): a helper used by two
+               targets of one property is defined once in gen/GenFuns_Cxx.v (twice was a compile error)
+  closures     a declared `nested` closure not found in its enclosing function is looked up as the module-level
+               function `name` / `_name`: exactly one def, the name bound nowhere else in the module, reachable from the
+               enclosing function by plain calls; a call of it from a fragment resolves to the translated target
+  C16 locators the append-loop form of the probabilities, the two-generator comprehension over set(X) x set(Y), the
+               shape read by two statements, a fresh name bound once to operator.index(temporal_distance) after the
+               guard, and `P = list(zip(X, Y))` bound once and used only as the iterable of the indicator list
 """
 import ast
 import atexit
@@ -339,8 +366,11 @@ CLASS_ATTRS = {
 def _apen_phi_stmt(fn, name):
     """the single assignment `name = ...` in the body of apen.phi (fn is phi); also checks that the enclosing
     conventions hold: phi has the one parameter m"""
-    if [a.arg for a in fn.args.args] != ['m']:
-        raise TranslationError('phi does not have the single parameter m')
+    ps = [a.arg for a in fn.args.args]
+    if not ('m' in ps and set(ps) <= {'U', 'N', 'm', 'r'} and len(set(ps)) == len(ps)
+            and not fn.args.vararg and not fn.args.kwarg and not fn.args.kwonlyargs):
+        # round 8: phi moved out of apen takes its former free variables U, N, r as parameters, under those names
+        raise TranslationError('phi does not have the parameter m (and at most its former free variables U, N, r)')
     hits = [s for s in fn.body if isinstance(s, ast.Assign) and len(s.targets) == 1
             and isinstance(s.targets[0], ast.Name) and s.targets[0].id == name]
     if len(hits) != 1:
@@ -410,7 +440,19 @@ def _c16_count(fn):
                 and ast.unparse(v.elt.right) == 'len(string)' and isinstance(v.elt.left, ast.Call)
                 and ast.unparse(v.elt.left.func) == 'float' and len(v.elt.left.args) == 1):
             return _rename(v.elt.left.args[0], {v.generators[0].target.id: 'symbol'})
-    raise TranslationError('no assignment [float(<count>) / len(string) for v in <symbols>] was found')
+    # round 8: the same list built by a loop `for v in <symbols>: L.append(float(<count>) / len(string))`
+    for st in _body(fn):
+        if (isinstance(st, ast.For) and not st.orelse and isinstance(st.target, ast.Name)
+                and ast.unparse(st.iter) == syms and len(st.body) == 1 and isinstance(st.body[0], ast.Expr)):
+            c = st.body[0].value
+            if (isinstance(c, ast.Call) and isinstance(c.func, ast.Attribute) and c.func.attr == 'append'
+                    and isinstance(c.func.value, ast.Name) and len(c.args) == 1 and not c.keywords):
+                e = c.args[0]
+                if (isinstance(e, ast.BinOp) and isinstance(e.op, ast.Div) and ast.unparse(e.right) == 'len(string)'
+                        and isinstance(e.left, ast.Call) and ast.unparse(e.left.func) == 'float'
+                        and len(e.left.args) == 1 and not e.left.keywords):
+                    return _rename(e.left.args[0], {st.target.id: 'symbol'})
+    raise TranslationError('no [float(<count>) / len(string) for v in <symbols>] (comprehension or append loop) was found')
 
 
 def _c16_indicator(fn):
@@ -424,10 +466,20 @@ def _c16_indicator(fn):
     ok = (len(loops) == 1 and isinstance(loops[0].target, ast.Name) and ast.unparse(loops[0].iter) == 'set(%s)' % X
           and len(loops[0].body) == 1 and isinstance(loops[0].body[0], ast.For)
           and isinstance(loops[0].body[0].target, ast.Name) and ast.unparse(loops[0].body[0].iter) == 'set(%s)' % Y)
-    if not ok:
-        raise TranslationError('the double loop over set(X) x set(Y) was not found')
-    x, y = loops[0].target.id, loops[0].body[0].target.id
-    inner = loops[0].body[0].body
+    if ok:
+        x, y = loops[0].target.id, loops[0].body[0].target.id
+        inner = loops[0].body[0].body
+    else:
+        # round 8: the same double loop as ONE comprehension  [.. for x in set(X) for y in set(Y)]
+        comps = [s_.value for s_ in b if isinstance(s_, ast.Assign) and isinstance(s_.value, ast.ListComp)
+                 and len(s_.value.generators) == 2
+                 and all(isinstance(g.target, ast.Name) and not g.ifs and not g.is_async for g in s_.value.generators)
+                 and ast.unparse(s_.value.generators[0].iter) == 'set(%s)' % X
+                 and ast.unparse(s_.value.generators[1].iter) == 'set(%s)' % Y]
+        if loops or len(comps) != 1:
+            raise TranslationError('the double loop over set(X) x set(Y) was not found')
+        x, y = comps[0].generators[0].target.id, comps[0].generators[1].target.id
+        inner = [ast.Expr(value=comps[0].elt)]
     means = [n for st in inner for n in ast.walk(st) if isinstance(n, ast.Call) and ast.unparse(n.func) == 'np.mean']
     if len(means) != 1 or len(means[0].args) != 1:
         raise TranslationError('the inner loop does not contain exactly one np.mean(<indicator list>)')
@@ -439,15 +491,37 @@ def _c16_indicator(fn):
         arg = defs[0].value
     if not isinstance(arg, ast.ListComp):
         raise TranslationError('the argument of np.mean is not a list comprehension')
+    # round 8: the pairs zipped once before the loops, `P = list(zip(X, Y))`, iterated as `for a, b in P`.  Iterating
+    # the list of the pairs is iterating the pairs; P must be bound exactly once, at the top level between the
+    # bindings of X, Y and the loops, and used ONLY as the iterable of this comprehension (so it cannot be mutated).
+    if len(arg.generators) == 1 and isinstance(arg.generators[0].iter, ast.Name) \
+            and arg.generators[0].iter.id not in (X, Y):
+        P = arg.generators[0].iter.id
+        occ = [n for n in ast.walk(fn) if isinstance(n, ast.Name) and n.id == P]
+        defs = [s_ for s_ in b if isinstance(s_, ast.Assign) and len(s_.targets) == 1
+                and isinstance(s_.targets[0], ast.Name) and s_.targets[0].id == P]
+        if (len(defs) == 1 and len(occ) == 2 and ast.unparse(defs[0].value) == 'list(zip(%s, %s))' % (X, Y)
+                and b.index(defs[0]) > max(b.index(lx[0]), b.index(ly[0]))
+                and all(sum(1 for n in ast.walk(fn) if isinstance(n, ast.Name) and n.id == v
+                            and isinstance(n.ctx, ast.Store)) == 1 for v in (X, Y))):
+            arg = copy.deepcopy(arg)
+            arg.generators[0].iter = defs[0].value.args[0]
+        else:
+            raise TranslationError('the iterable %s of the indicator list is not `list(zip(X, Y))` bound once' % P)
     return _rename(arg, {X: 'X', Y: 'Y', x: 'x', y: 'y'})
 
 
 def _c16_ami_parts(fn):
     b = _body(fn)
-    if not (len(b) >= 2 and ast.unparse(b[0]).replace(' ', '') ==
-            'num_timesteps,num_cols=(cellular_automaton.shape[0],cellular_automaton.shape[1])'):
+    flat = lambda st: ast.unparse(st).replace(' ', '')
+    if len(b) >= 2 and flat(b[0]) == 'num_timesteps,num_cols=(cellular_automaton.shape[0],cellular_automaton.shape[1])':
+        gi = 1
+    elif len(b) >= 3 and sorted([flat(b[0]), flat(b[1])]) == ['num_cols=cellular_automaton.shape[1]',
+                                                            'num_timesteps=cellular_automaton.shape[0]']:
+        gi = 2          # round 8: the two components bound by two statements
+    else:
         raise TranslationError('num_timesteps, num_cols are not the two components of the shape')
-    g = b[1]
+    g = b[gi]
     if not (isinstance(g, ast.If) and not g.orelse and isinstance(g.test, ast.UnaryOp) and isinstance(g.test.op, ast.Not)
             and len(g.body) == 1 and isinstance(g.body[0], ast.Raise) and isinstance(g.body[0].exc, ast.Call)
             and ast.unparse(g.body[0].exc.func) == 'ValueError'):
@@ -457,8 +531,19 @@ def _c16_ami_parts(fn):
     # the identity (operator.index returns the same integer value for every int-like object and raises TypeError for
     # everything else, which is outside the typed domain), so the statement is stepped over; any OTHER re-binding of
     # the name still fails closed.
-    rest = b[2:]
+    rest = b[gi + 1:]
+    lag = None
     if rest and ast.unparse(rest[0]).replace(' ', '') == 'temporal_distance=operator.index(temporal_distance)':
+        rest = rest[1:]
+    elif (rest and isinstance(rest[0], ast.Assign) and len(rest[0].targets) == 1
+          and isinstance(rest[0].targets[0], ast.Name)
+          and ast.unparse(rest[0].value).replace(' ', '') == 'operator.index(temporal_distance)'):
+        # round 8: the normalised distance under a NEW name bound once (`lag = operator.index(temporal_distance)`):
+        # the same integer, so the name is read as temporal_distance in the fragments
+        lag = rest[0].targets[0].id
+        if sum(1 for n in ast.walk(fn) if isinstance(n, ast.Name) and n.id == lag and isinstance(n.ctx, ast.Store)) != 1 \
+                or lag in [a_.arg for a_ in fn.args.args] or lag in ('num_timesteps', 'num_cols', 'cellular_automaton'):
+            raise TranslationError('%s is bound more than once' % lag)
         rest = rest[1:]
     for s_ in rest:
         for n in ast.walk(s_):
@@ -493,7 +578,9 @@ def _c16_ami_parts(fn):
     for a in args:
         if not (isinstance(a, ast.Subscript) and isinstance(a.slice, ast.Slice) and isinstance(a.value, ast.Name)):
             raise TranslationError('an argument of mutual_information is not a slice of the series of the cell')
-        out.append(_rename(a, {a.value.id: 'cell_states_over_time'}))
+        if lag is not None and a.value.id in (lag, 'temporal_distance'):
+            raise TranslationError('the sliced series is named like the distance')
+        out.append(_rename(a, {a.value.id: 'cell_states_over_time', **({lag: 'temporal_distance'} if lag else {})}))
     if ast.unparse(args[0].value) != ast.unparse(args[1].value):
         raise TranslationError('the two arguments of mutual_information slice different series')
     return g.test.operand, out[0], out[1]
@@ -570,10 +657,46 @@ def _c02_axis_stmts(fn):
     return inner[:-1], [x.id for x in last.value.elts]
 
 
+def _c10_alternation(b):
+    """(O, E): the names of the lists the time loop uses at odd / even t, or None"""
+    loops = [st for st in b if isinstance(st, ast.For) and ast.unparse(st.iter) == 'range(1, timesteps)']
+    if len(loops) != 1:
+        return None
+    for st in loops[0].body:
+        if isinstance(st, ast.Assign) and isinstance(st.value, ast.IfExp) and ast.unparse(st.value.test) == 't % 2 == 0' \
+                and isinstance(st.value.body, ast.Name) and isinstance(st.value.orelse, ast.Name):
+            return st.value.orelse.id, st.value.body.id
+        if isinstance(st, ast.Assign) and isinstance(st.value, ast.Subscript) and ast.unparse(st.value.slice) == 't % 2' \
+                and isinstance(st.value.value, ast.Tuple) and len(st.value.value.elts) == 2 \
+                and all(isinstance(x, ast.Name) for x in st.value.value.elts):
+            return st.value.value.elts[1].id, st.value.value.elts[0].id
+        if isinstance(st, ast.If) and ast.unparse(st.test) == 't % 2 == 0' and len(st.body) == 1 and len(st.orelse) == 1 \
+                and isinstance(st.body[0], ast.Assign) and isinstance(st.orelse[0], ast.Assign) \
+                and ast.unparse(st.body[0].targets[0]) == ast.unparse(st.orelse[0].targets[0]) \
+                and isinstance(st.body[0].value, ast.Name) and isinstance(st.orelse[0].value, ast.Name):
+            return st.orelse[0].value.id, st.body[0].value.id
+    return None
+
+
 def _c10_block_stmts(fn):
     """from `X = list(range(len(initial_conditions)))` to the later of the two assignments of the index lists between
     which the time loop alternates (`S = E if t % 2 == 0 else O`, or the same as an if/else); returns (O, E)"""
     b = _body(fn)
+    # (a) the construction extracted into a helper:  O, E = helper(len(initial_conditions), block_size)
+    for i, st in enumerate(b):
+        if isinstance(st, ast.Assign) and len(st.targets) == 1 and isinstance(st.targets[0], ast.Tuple) \
+                and len(st.targets[0].elts) == 2 and all(isinstance(x, ast.Name) for x in st.targets[0].elts) \
+                and isinstance(st.value, ast.Call) and isinstance(st.value.func, ast.Name) and not st.value.keywords \
+                and sorted(ast.unparse(a) for a in st.value.args) == ['block_size', 'len(initial_conditions)']:
+            names = [x.id for x in st.targets[0].elts]
+            alt = _c10_alternation(b)
+            if alt is not None and sorted(alt) == sorted(names):
+                for k_, other in enumerate(b):
+                    if k_ != i:
+                        for n in ast.walk(other):
+                            if isinstance(n, ast.Name) and n.id in names + ['block_size'] and isinstance(n.ctx, ast.Store):
+                                raise TranslationError('%s is re-bound outside the statement range' % n.id)
+                return [st], [alt[0], alt[1]]
     first = [i for i, st in enumerate(b) if isinstance(st, ast.Assign)
              and ast.unparse(st.value) == 'list(range(len(initial_conditions)))']
     loops = [st for st in b if isinstance(st, ast.For) and ast.unparse(st.iter) == 'range(1, timesteps)']
@@ -609,6 +732,19 @@ def _c10_block_stmts(fn):
             even, odd = st.body[0].value.id, st.orelse[0].value.id
     if even is None:
         raise TranslationError('the alternation `E if t % 2 == 0 else O` (or itertools.cycle((O, E))) was not found')
+
+    def undecorate(name):
+        # P = [(v, <anything>) for v in L]: the time loop alternates between lists of (block, gather array) pairs whose
+        # first component is the block itself; the index construction under the tie is L
+        hits = [st for st in b if isinstance(st, ast.Assign) and len(st.targets) == 1 and ast.unparse(st.targets[0]) == name]
+        if len(hits) == 1 and isinstance(hits[0].value, ast.ListComp) and len(hits[0].value.generators) == 1:
+            g = hits[0].value.generators[0]
+            el = hits[0].value.elt
+            if not g.ifs and isinstance(g.target, ast.Name) and isinstance(g.iter, ast.Name) and isinstance(el, ast.Tuple) \
+                    and len(el.elts) == 2 and isinstance(el.elts[0], ast.Name) and el.elts[0].id == g.target.id:
+                return g.iter.id
+        return name
+    even, odd = undecorate(even), undecorate(odd)
 
     def is_assign(st, name):
         return isinstance(st, ast.Assign) and len(st.targets) == 1 and ast.unparse(st.targets[0]) == name
@@ -1217,6 +1353,14 @@ class FunTrans:
             return self.listcomp(e, env)
         if isinstance(e, ast.List) and not e.elts:
             return '[]', 'emptylist'
+        if isinstance(e, ast.Tuple) and len(e.elts) == 2:
+            (a, ta), (b, tb) = self.expr(e.elts[0], env), self.expr(e.elts[1], env)
+            if ta != Z or tb != Z:
+                # a 2-tuple whose components are not both ints (e.g. two index lists): a pair
+                if any(t in (UNUSED, STATE, STORE, ADDS, DICT5, CALLP) for t in (ta, tb)):
+                    _err(e, 'tuple of values of type (%s, %s)' % (ta, tb))
+                return '(%s, %s)' % (a, b), pair_of(ta, tb)
+            return '[%s; %s]' % (a, b), ZLIST
         if isinstance(e, (ast.Tuple, ast.List)):
             txt, _ = self.zlist_literal(e, env)
             return txt, ZLIST
@@ -1314,6 +1458,10 @@ class FunTrans:
             return '(%s * %s)' % (a, b), Z
         if isinstance(e.op, ast.BitXor):
             return '(Z.lxor %s %s)' % (a, b), Z
+        if isinstance(e.op, ast.RShift):
+            if not self.is_nonneg(e.right, env):
+                _err(e, '`>>` with a right operand that is not known to be >= 0')
+            return '(Z.shiftr %s %s)' % (a, b), Z
         if isinstance(e.op, ast.BitOr):
             return '(Z.lor %s %s)' % (a, b), Z
         if isinstance(e.op, ast.BitAnd):
@@ -1758,7 +1906,8 @@ class FunTrans:
                 # a closure defined in the same enclosing function
                 callee = next((t for t in TARGETS if t['file'] == self.mod.fname and t.get('cls') is None
                                and t['func'] == self.t['func'] and t.get('nested') and not t.get('locate')
-                               and t['nested'][-1] == f.id and t['prop'] == self.t['prop']), None)
+                               and t['prop'] == self.t['prop']
+                               and (t['nested'][-1] == f.id or _moved_out(self.mod, t) == f.id)), None)
                 if callee is not None and f.id in env.vars:
                     callee = None
             if callee is not None and callee['prop'] != self.t['prop']:
@@ -1816,6 +1965,11 @@ class FunTrans:
             if tl == SYMLIST and tx == SYM:
                 return '(Z.of_nat (count_occ sym_dec %s %s))' % (l, x), Z
             _err(e, '.count on (%s, %s)' % (tl, tx))
+        if ast.unparse(f) == 'operator.index' and len(e.args) == 1 and not e.keywords:
+            a, ta = self.expr(e.args[0], env)
+            if ta == Z:
+                return a, Z          # operator.index of an int is that int
+            _err(e, 'operator.index of a value of type %s' % ta)
         # int(ch) on a character of a binary string: the bit
         if isinstance(f, ast.Name) and f.id == 'int' and len(e.args) == 1 and not e.keywords:
             a, ta = self.expr(e.args[0], env)
@@ -2033,7 +2187,7 @@ class FunTrans:
         if any(t in (UNUSED, STATE, STORE, ADDS, DICT5) for _, t in args):
             _err(e, 'method %s called with an argument of a type that cannot be passed on' % fn.name)
         key = ('self.' + fn.name, tuple(t for _, t in args))
-        cache = root.__dict__.setdefault('helper_cache', {})
+        cache = self.mod.__dict__.setdefault('helper_cache', {}).setdefault(self.t['prop'], {})
         attrs = [(at, self.attr_info[at]) for at in self.t['attrs'] if self.attr_info.get(at) not in (STORE,)]
         if key not in cache:
             name = 'h_' + fn.name.lstrip('_')
@@ -2073,11 +2227,16 @@ class FunTrans:
         stack = getattr(root, 'helper_stack', [])
         if fn.name in stack or len(stack) > 4:
             _err(e, 'recursive (or too deeply nested) helper %s' % fn.name)
-        args = [self.expr(x, env) for x in e.args]
-        if any(t in (UNUSED, STATE, STORE, ADDS, DICT5) for _, t in args):
+        args = []
+        for x in e.args:
+            if _is_self_attr(x) and self.attr_info.get(x.attr) == ADDS and x.attr in self.t.get('attrs', []):
+                args.append(('self' + x.attr, ADDS))      # the list of scheduled grain additions, handed to a helper
+            else:
+                args.append(self.expr(x, env))
+        if any(t in (UNUSED, STATE, STORE, DICT5) for _, t in args):
             _err(e, 'helper %s called with an argument of a type that cannot be passed on' % fn.name)
         key = (fn.name, tuple(t for _, t in args))
-        cache = root.__dict__.setdefault('helper_cache', {})
+        cache = self.mod.__dict__.setdefault('helper_cache', {}).setdefault(self.t['prop'], {})
         if key not in cache:
             name = 'h_' + fn.name.lstrip('_') + ('' if not any(k[0] == fn.name for k in cache) else
                                                     '_%d' % (1 + sum(1 for k in cache if k[0] == fn.name)))
@@ -2355,10 +2514,47 @@ class FunTrans:
             r = self.bind(env, s, 'src_row_upd %s %s (fun row_ => src_fill_slice row_ %s %s %s)' % (
                 X, i, '(Some %s)' % lo[0] if lo else 'None', '(Some %s)' % hi[0] if hi else 'None', v))
             return self.wrap_binds(env, self.let(X, r, cont(env.copy())))
+        if isinstance(s, ast.Assign) and len(s.targets) == 1 and isinstance(s.targets[0], ast.Tuple) \
+                and len(s.targets[0].elts) == 2 and all(isinstance(x, ast.Name) for x in s.targets[0].elts) \
+                and not isinstance(s.value, ast.Tuple):
+            # a, b = <pair-valued expression> (e.g. a helper that returns two lists)
+            tx, ty = self.expr(s.value, env)
+            if not (isinstance(ty, str) and ty.startswith('pair:')):
+                _err(s, 'unpacking of a value of type %s' % ty)
+            t1, t2 = _split_pair(ty)
+            n1, n2 = (_check_ident(x, x.id) for x in s.targets[0].elts)
+            if n1 == n2:
+                _err(s, 'the same name twice in an unpacking')
+            env2 = env.copy()
+            for nm, tt in ((n1, t1), (n2, t2)):
+                if nm in env.vars and env.vars[nm] != tt:
+                    _err(s, 'local %r changes type' % nm)
+                env2.vars[nm] = tt
+                env2.elts.pop(nm, None)
+                env2.pylists.discard(nm)
+            return self.wrap_binds(env, "(let '(%s, %s) := %s in\n%s)" % (n1, n2, tx, cont(env2)))
         if isinstance(s, ast.Assign):
             if len(s.targets) != 1:
                 _err(s, 'multiple assignment targets')
             tg = s.targets[0]
+            if isinstance(tg, ast.Name) and isinstance(s.value, ast.IfExp) and self.mode_effects_ok and not env.noeffect:
+                mark = (len(self.rets), list(env.binds))
+                try:
+                    probe = env.copy()
+                    self.expr(s.value, probe)
+                    effectful_branch = False
+                except TranslationError as ex:
+                    effectful_branch = 'that can raise inside a short-circuit position' in str(ex)
+                del self.rets[mark[0]:]
+                env.binds = mark[1]
+                if effectful_branch:
+                    # x = A if c else B with a branch that can raise  ==  if c: x = A else: x = B
+                    def asg(v):
+                        a_ = ast.Assign(targets=[tg], value=v)
+                        return ast.copy_location(a_, s)
+                    iff = ast.If(test=s.value.test, body=[asg(s.value.body)], orelse=[asg(s.value.orelse)])
+                    ast.copy_location(iff, s)
+                    return self.block([iff] + list(rest), env, k)
             if isinstance(tg, ast.Name):
                 if (tg.id in COQ_KEYWORDS or tg.id in TEMPLATE_NAMES) and re.match(r'^[A-Za-z_]+$', tg.id) \
                         and not tg.id.startswith('_'):
@@ -2403,15 +2599,26 @@ class FunTrans:
         if isinstance(s, ast.AugAssign):
             if not isinstance(s.target, ast.Name) or env.vars.get(s.target.id) != Z:
                 _err(s, 'augmented assignment to something that is not an int local')
-            if not isinstance(s.op, (ast.Add, ast.Sub, ast.BitOr)):
-                _err(s, 'augmented assignment other than += / -= / |=')
+            bitops = {ast.BitOr: 'Z.lor', ast.BitAnd: 'Z.land', ast.BitXor: 'Z.lxor', ast.LShift: 'Z.shiftl',
+                      ast.RShift: 'Z.shiftr'}
+            if not isinstance(s.op, (ast.Add, ast.Sub) + tuple(bitops)):
+                _err(s, 'augmented assignment other than += -= |= &= ^= <<= >>=')
             v, tv = self.expr(s.value, env)
             if tv != Z:
                 _err(s, 'augmented assignment of a non-int')
-            if isinstance(s.op, ast.BitOr):
+            if type(s.op) in bitops:
+                # x |= e, x &= e, x ^= e: Z.lor / Z.land / Z.lxor (two's complement, as Python ints);
+                # x <<= e, x >>= e with e syntactically >= 0: Z.shiftl / Z.shiftr (a negative count raises in Python)
+                if isinstance(s.op, (ast.LShift, ast.RShift)) and not self.is_nonneg(s.value, env):
+                    _err(s, '`<<=` / `>>=` with a count that is not known to be >= 0')
                 name = s.target.id
                 env2 = env.copy()
-                return self.wrap_binds(env, self.let(name, '(Z.lor %s %s)' % (name, v), cont(env2)))
+                env2.nonneg.discard(name)
+                for other, elts in env.elts.items():
+                    if name in elts:
+                        env2.elts.pop(other, None)
+                return self.wrap_binds(env, self.let(env.alias.get(name, name), '(%s %s %s)' % (
+                    bitops[type(s.op)], env.alias.get(name, name), v), cont(env2)))
             name = s.target.id
             env2 = env.copy()
             for other, elts in env.elts.items():
@@ -2635,11 +2842,17 @@ class FunTrans:
             _check_ident(s.target, x)
             if x in env.vars:
                 _err(s, 'loop variable %r shadows a local' % x)
-        if _is_self_attr(s.iter) and self.attr_info.get(s.iter.attr) == ADDS and s.iter.attr in self.t['attrs']:
+        adds_param = isinstance(s.iter, ast.Name) and env.vars.get(s.iter.id) == ADDS and isinstance(s.target, ast.Name)
+        if adds_param:
+            x = _check_ident(s.target, s.target.id)
+            if x in env.vars:
+                _err(s, 'loop variable %r shadows a local' % x)
+        if adds_param or (_is_self_attr(s.iter) and self.attr_info.get(s.iter.attr) == ADDS
+                          and s.iter.attr in self.t['attrs']):
             b = s.body
             if not (len(b) == 1 and isinstance(b[0], ast.If) and not b[0].orelse and len(b[0].body) == 1
                     and isinstance(b[0].body[0], ast.Return) and b[0].body[0].value is not None):
-                _err(s, 'loop over self.%s whose body is not `if <test>: return <e>`' % s.iter.attr)
+                _err(s, 'loop over the grain additions whose body is not `if <test>: return <e>`')
             if x in _names_in(b[0].body[0].value):
                 _err(s, 'the value returned from the scan depends on the element found')
             inner = env.copy()
@@ -2651,7 +2864,8 @@ class FunTrans:
             r_env = env.copy()
             r_env.toplevel = False
             val = self.block([b[0].body[0]], r_env, None)
-            return '(if existsb (fun %s => %s) self%s\nthen %s\nelse %s)' % (x, tst, s.iter.attr, val, cont(env))
+            src = s.iter.id if adds_param else 'self' + s.iter.attr
+            return '(if existsb (fun %s => %s) %s\nthen %s\nelse %s)' % (x, tst, src, val, cont(env))
         # a loop over a literal tuple / list of int constants whose body returns: unrolled (the loop variable is
         # replaced by each constant in turn; it must not be assigned, and no break / continue)
         if isinstance(s.iter, (ast.Tuple, ast.List)) and s.iter.elts and all(_is_int_const(x) for x in s.iter.elts) \
@@ -2744,6 +2958,8 @@ class FunTrans:
 
     def bind_pattern(self, target, ety, env, nonneg):
         """loop / comprehension target -> (coq pattern, {name: type})"""
+        if isinstance(target, ast.Name) and target.id == '_':
+            return '_', {}, []          # an unused loop variable
         if isinstance(target, ast.Name):
             x = _check_ident(target, target.id)
             if x in env.vars:
@@ -2752,6 +2968,17 @@ class FunTrans:
         if isinstance(target, ast.Tuple) and len(target.elts) == 2 and ety.startswith('pair:') \
                 and all(isinstance(t, ast.Name) for t in target.elts):
             a, b = _split_pair(ety)
+            if any(t.id == '_' for t in target.elts):
+                # `for i, _ in enumerate(..)`: the unused component is not bound
+                names = [t.id for t in target.elts]
+                if names[0] == names[1]:
+                    return "'(_, _)", {}, []
+                keep = 0 if names[1] == '_' else 1
+                nm = _check_ident(target.elts[keep], names[keep])
+                if nm in env.vars:
+                    _err(target, 'loop variables shadow a local')
+                pat = "'(%s, _)" % nm if keep == 0 else "'(_, %s)" % nm
+                return pat, {nm: (a, b)[keep]}, ([nm] if keep == 0 and nonneg and a == Z else [])
             na, nb = (_check_ident(t, t.id) for t in target.elts)
             if na in env.vars or nb in env.vars or na == nb:
                 _err(target, 'loop variables shadow a local')
@@ -3155,6 +3382,26 @@ def _find_function(mod, target):
         # a function defined directly in the body of the enclosing one (a closure; its free variables must be
         # declared as parameters of the target: reading any other name fails as unknown)
         inner = [n for n in fn.body if isinstance(n, ast.FunctionDef) and n.name == name]
+        if not inner and fn is fns[0] and len(target['nested']) == 1:
+            # round 8: the closure moved out as a module-level helper `name` / `_name` (its former free variables are
+            # then parameters or still the declared free names of the fragment).  Accepted only if the module defines
+            # exactly one such function, binds the name nowhere else, and the enclosing function does not bind it.
+            cands = [n for n in mod.tree.body if isinstance(n, ast.FunctionDef) and n.name in (name, '_' + name)]
+            if len(cands) == 1 and not any(
+                    (isinstance(n, ast.Name) and n.id == cands[0].name and isinstance(n.ctx, (ast.Store, ast.Del)))
+                    or (isinstance(n, ast.arg) and n.arg == cands[0].name)
+                    or (isinstance(n, (ast.FunctionDef, ast.ClassDef)) and n.name == cands[0].name and n is not cands[0])
+                    or (isinstance(n, ast.alias) and (n.asname or n.name) == cands[0].name)
+                    or (isinstance(n, (ast.Global, ast.Nonlocal)) and cands[0].name in n.names)
+                    for n in ast.walk(mod.tree)):
+                reach, todo = set(), [fn]
+                while todo:          # it must be reachable from the enclosing function through plain calls
+                    for n in ast.walk(todo.pop()):
+                        if isinstance(n, ast.Call) and isinstance(n.func, ast.Name) and n.func.id not in reach:
+                            reach.add(n.func.id)
+                            todo += [d for d in mod.tree.body if isinstance(d, ast.FunctionDef) and d.name == n.func.id]
+                if cands[0].name in reach:
+                    return None, cands[0]
         if len(inner) != 1:
             raise TranslationError('nested function %s not found (or defined twice) in %s' % (name, fn.name))
         # the name must not be re-bound anywhere else in the enclosing function
@@ -3163,6 +3410,15 @@ def _find_function(mod, target):
                 raise TranslationError('nested function %s is re-bound in %s' % (name, fn.name))
         fn = inner[0]
     return None, fn
+
+
+def _moved_out(mod, target):
+    """the name of the module-level helper a declared closure was moved out to (round 8), or None"""
+    try:
+        fn = _find_function(mod, target)[1]
+    except TranslationError:
+        return None
+    return fn.name if any(fn is n for n in mod.tree.body) else None
 
 
 _CUR_MOD = None
